@@ -9,7 +9,8 @@ FUNCS = ['Matrix_New', 'matrix_subscr', 'matrix_ass_subscr',
          'matrix_div_generic', 'matrix_rem_generic']
 KINDS = ('extern-requires', 'index-reject', 'index-accept', 'index-address', 'valid-preserved',
          'size-assigned', 'constructor-postcondition', 'typecode-preserved',
-         'reject-exception', 'reject-clean', 'covered', 'shape-rule')
+         'reject-exception', 'reject-clean', 'covered', 'shape-rule',
+         'inplace-type-rule', 'kernel-typecode')
 
 
 def tasks(tier, funcs=FUNCS):
